@@ -230,6 +230,21 @@ def judge_mixed(case) -> Verdict:
     items = list(acl.items)
     if len(items) != len(acl_case["items"]):
         raise Invalid()
+    if case.get("bare"):
+        # ONE block given to the ACL as the bare object (not inside a list): it stays one block
+        blk = AceGroup(items=items, platform=acl.platform, version=str(acl.version), port_nr=acl.port_nr,
+                       protocol_nr=acl.protocol_nr, max_ncwb=acl.max_ncwb)
+        acl.items = blk
+        t0 = acl.line
+        if len(acl.items) != 1 or not isinstance(acl.items[0], AceGroup):
+            v.fail("mixed:bare-block-not-kept-as-one-block", {"top_level": [type(o).__name__ for o in acl.items][:6], "text": t0})
+            return v
+        acl.reverse()
+        if acl.line != t0:
+            v.fail("mixed:bare-block-split-by-reverse", {"before": t0, "after": acl.line})
+        v.nt(len(items) >= 2)
+        v.label("bare-block")
+        return v
     # wrap generated slices into explicit blocks
     out, i = [], 0
     mapping = []  # per top-level object: indices of the generated items it holds
@@ -280,7 +295,21 @@ def judge_mixed(case) -> Verdict:
     for k in range(len(order) - 1, 0, -1):
         j = perm[k % len(perm)] % (k + 1)
         order[k], order[j] = order[j], order[k]
-    acl.items[:] = [objs[k] for k in order]
+    if case.get("move") == "pop-insert":
+        # every item is moved to its place with pop(position) / insert: the object AT that position is the one taken,
+        # also when an item with the same text stands earlier
+        for pos, src in enumerate(order):
+            cur = next(k for k, o in enumerate(acl.items) if o is objs[src] and k >= pos)
+            taken = acl.pop(cur)
+            if taken is not objs[src]:
+                v.fail("mixed:pop-returned-another-object", {"position": cur, "numbered": numbered})
+                return v
+            acl.insert(pos, taken)
+        if [id(o) for o in acl.items] != [id(objs[k]) for k in order]:
+            v.fail("mixed:pop-insert:objects-lost-or-listed-twice", {"numbered": numbered, "order": order, "got": acl.line})
+            return v
+    else:
+        acl.items[:] = [objs[k] for k in order]
     want_lines = [x.line for k in order for x in (objs[k].items if isinstance(objs[k], AceGroup) else [objs[k]])]
     ind = acl.indent
     if [ln[len(ind):] for ln in acl.line.split("\n")[1:]] != want_lines:
@@ -303,7 +332,8 @@ def mixed_st(draw, tier):
     return {"acl": acl, "spans": [[draw(st.integers(0, n)), draw(st.integers(1, 3))] for _ in range(draw(st.integers(1, 3)))],
             "perm": draw(st.lists(st.integers(0, 50), min_size=1, max_size=8)),
             "start": draw(st.sampled_from([1, 10, 100])), "step": draw(st.sampled_from([1, 5, 10])),
-            "reuse_block": draw(st.sampled_from([None, None, None, [draw(st.integers(0, 3)), draw(st.integers(0, 12))]]))}
+            "reuse_block": draw(st.sampled_from([None, None, None, [draw(st.integers(0, 3)), draw(st.integers(0, 12))]])),
+            "bare": draw(st.sampled_from([False] * 7 + [True])), "move": draw(st.sampled_from(["slice", "pop-insert"]))}
 
 
 def judge_inplace(case) -> Verdict:
